@@ -22,8 +22,8 @@ Inductive astep : cfg -> cfg -> Prop :=
 | A_sched_cb td s b :
     astep (td, s) (td, push_ready [HUser (next s) KCb b] (emit (ESc (next s)) (bump s)))
 | A_sched_to td s dl b :
-    astep (td, s) (td, add_handle (next s) (sched_timer (HUser (next s) (KTo dl (when_for s dl)) b)
-                                             (emit (ESt (next s) dl (when_for s dl)) (bump s))))
+    astep (td, s) (td, add_handle (next s) (sched_timer (HUser (next s) (KTo dl) b)
+                                             (emit (ESt (next s) dl) (bump s))))
 | A_cancel td s i : astep (td, s) (td, cancel_inst i (emit (ERm i) s))
 | A_add_future td s f b :
     astep (td, s) (td, add_done_callback f (FcUser (next s) b) (emit (EAf (next s) f) (bump s)))
@@ -48,9 +48,11 @@ Inductive astep : cfg -> cfg -> Prop :=
 | A_timeout_stop td s : astep (td, s) (td, set_stopping s)
 | A_heap_drop s h hp :
     hpop (heap s) = Some (h, hp) -> is_cancelled s h = true -> astep ([], s) ([], set_heap hp s)
-| A_heap_pop s h hp :
-    hpop (heap s) = Some (h, hp) -> hwhen h <= now s -> astep ([], s) ([], push_ready [h] (set_heap hp s))
-| A_tick s t : now s <= t -> astep ([], s) ([], emit (EIt t) (set_now t s))
+| A_heap_pop s h hp :   (* only right after the iteration mark: no event since *)
+    hpop (heap s) = Some (h, hp) -> hwhen h <= now s -> (exists tr0 t, ctr s = tr0 ++ [EIt t]) ->
+    astep ([], s) ([], push_ready [h] (set_heap hp s))
+| A_tick s t :          (* at the start of an iteration the ready queue holds no timer handles *)
+    now s <= t -> filter timerlike (ready s) = [] -> astep ([], s) ([], emit (EIt t) (set_now t s))
 | A_todo s : (exists tr0 t, ctr s = tr0 ++ [EIt t]) -> astep ([], s) (ready s, set_ready [] s).
 
 Inductive asteps : cfg -> cfg -> Prop :=
@@ -162,21 +164,99 @@ Proof.
   assert (h = h0) by (eapply hpop_head; eauto). subst h. eapply AS_step; [|apply IH]. eapply A_heap_drop; [rewrite H; exact P|exact C].
 Qed.
 
-Lemma pop_due_steps fuel : forall s, asteps ([], s) ([], pop_due fuel s).
-Proof.
-  induction fuel as [|fu IH]; intro s; simpl; [constructor|].
-  destruct (heap s) as [|h0 hs] eqn:H; [constructor|].
-  destruct (hwhen h0 <=? now s) eqn:C; [|constructor].
-  destruct (hpop (h0 :: hs)) as [[h hp]|] eqn:P; [|constructor].
-  assert (h = h0) by (eapply hpop_head; eauto). subst h.
-  eapply AS_step; [|apply IH]. eapply A_heap_pop; [rewrite H; exact P|]. apply Z.leb_le; exact C.
-Qed.
-
 Lemma pop_due_trace fuel : forall s, ctr (pop_due fuel s) = ctr s.
 Proof.
   induction fuel as [|fu IH]; intro s; simpl; auto.
   destruct (heap s) as [|h0 hs]; auto. destruct (hwhen h0 <=? now s); auto.
   destruct (hpop (h0 :: hs)) as [[h hp]|]; auto. rewrite IH. reflexivity.
+Qed.
+
+Lemma pop_due_steps fuel : forall s,
+  (exists tr0 t, ctr s = tr0 ++ [EIt t]) -> asteps ([], s) ([], pop_due fuel s).
+Proof.
+  induction fuel as [|fu IH]; intros s L; simpl; [constructor|].
+  destruct (heap s) as [|h0 hs] eqn:H; [constructor|].
+  destruct (hwhen h0 <=? now s) eqn:C; [|constructor].
+  destruct (hpop (h0 :: hs)) as [[h hp]|] eqn:P; [|constructor].
+  assert (h = h0) by (eapply hpop_head; eauto). subst h.
+  eapply AS_step; [|apply IH; exact L]. eapply A_heap_pop; [rewrite H; exact P| |exact L]. apply Z.leb_le; exact C.
+Qed.
+
+(* ---------- the ready queue holds no timer handles, except while pop_due fills it ---------- *)
+Definition ntl (s : st) : Prop := filter timerlike (ready s) = [].
+
+Lemma ntl_push hs s : filter timerlike hs = [] -> ntl s -> ntl (push_ready hs s).
+Proof. unfold ntl. simpl. intros H N. rewrite filter_app, N, H. reflexivity. Qed.
+
+Lemma fcb_handles_ntl key cbs : filter timerlike (map (handle_of_fcb key) cbs) = [].
+Proof. induction cbs as [|c cbs IH]; simpl; auto. destruct c; simpl; auto. Qed.
+
+Lemma ntl_add_done_callback key c s : ntl s -> ntl (add_done_callback key c s).
+Proof.
+  intro N. unfold add_done_callback. destruct (fget (futs s) key); try exact N;
+    apply ntl_push; auto; destruct c; reflexivity.
+Qed.
+
+Lemma ntl_resolve key r s s' : resolve key r s = Some s' -> ntl s -> ntl s'.
+Proof.
+  unfold resolve. destruct (fget (futs s) key); try discriminate. intros E N. inversion E; subst.
+  apply ntl_push; [apply fcb_handles_ntl|exact N].
+Qed.
+
+Lemma ntl_exec_op o s s' r : exec_op o s = (s', r) -> ntl s -> ntl s'.
+Proof.
+  destruct o as [b|fm t b|k|f b|f v|f e|f|t]; cbn [exec_op]; intros H N.
+  - inversion H; subst. apply ntl_push; auto.
+  - inversion H; subst. exact N.
+  - destruct (nth_error (handles s) k); inversion H; subst; exact N.
+  - inversion H; subst. apply ntl_add_done_callback. exact N.
+  - destruct (resolve f (FOk (Some v)) s) as [s1|] eqn:R; inversion H; subst; [|exact N].
+    eapply ntl_resolve in R; eauto.
+  - destruct (resolve f (FExc (XUser e)) s) as [s1|] eqn:R; inversion H; subst; [|exact N].
+    eapply ntl_resolve in R; eauto.
+  - destruct (resolve f FCancelled s) as [s1|] eqn:R; inversion H; subst; [|exact N].
+    eapply ntl_resolve in R; eauto.
+  - inversion H; subst. exact N.
+Qed.
+
+Lemma ntl_exec_ops os : forall s s' r, exec_ops os s = (s', r) -> ntl s -> ntl s'.
+Proof.
+  induction os as [|o os IH]; simpl; intros s s' r H N; [inversion H; subst; auto|].
+  destruct (exec_op o s) as [s1 r1] eqn:E. apply ntl_exec_op in E; auto.
+  destruct r1; [inversion H; subst; auto|eauto].
+Qed.
+
+Lemma ntl_run_fn i k b s s' e : run_fn i k b s = (s', e) -> ntl s -> ntl s'.
+Proof.
+  unfold run_fn. destruct (exec_ops (b_ops b) (emit (ERun i k (b_label b)) s)) as [s1 r] eqn:E.
+  intros H N. inversion H; subst. apply ntl_exec_ops in E; auto.
+Qed.
+
+Lemma ntl_run_handle h s : ntl s -> ntl (run_handle h s).
+Proof.
+  intro N. destruct h as [i k b|key| |i b|w]; simpl.
+  - destruct (run_fn i (rkind_of k) b s) as [s1 e] eqn:R. apply ntl_run_fn in R; auto.
+    destruct e; auto. apply ntl_add_done_callback; auto.
+  - destruct (fget (futs s) key); auto.
+  - exact N.
+  - destruct (run_fn i RFn b s) as [s1 e] eqn:R. apply ntl_run_fn in R; auto.
+    destruct e; try (apply ntl_push; auto). apply ntl_add_done_callback. exact R.
+  - destruct (cell s) as [[r|f]|]; try exact N.
+    destruct (resolve f FCancelled (set_tcalled s)) as [s2|] eqn:R; [|exact N].
+    eapply ntl_resolve in R; eauto.
+Qed.
+
+Lemma ntl_run_todo todo : forall s, ntl s -> ntl (run_todo todo s).
+Proof.
+  induction todo as [|h t IH]; intros s N; simpl; auto.
+  destruct (is_cancelled s h); auto. apply IH. apply ntl_run_handle; auto.
+Qed.
+
+Lemma drop_cancelled_ready fuel : forall s, ready (drop_cancelled fuel s) = ready s.
+Proof.
+  induction fuel as [|n IHn]; intro s; simpl; auto.
+  destruct (heap s) as [|h0 hs]; auto. destruct (is_cancelled s h0); auto.
+  destruct (hpop (h0 :: hs)) as [[h hp]|]; auto. rewrite IHn. reflexivity.
 Qed.
 
 Definition select_timeout (s1 : st) : option Z :=
@@ -206,19 +286,21 @@ Proof.
   unfold select_timeout, MAX_SELECT. destruct (ready s); [destruct (heap s)|]; intro H; inversion H; lia.
 Qed.
 
-Lemma run_once_steps s s' : run_once s = Some s' -> asteps ([], s) ([], s').
+Lemma run_once_steps s s' : ntl s -> run_once s = Some s' -> asteps ([], s) ([], s') /\ ntl s'.
 Proof.
-  rewrite run_once_unfold. cbv zeta.
+  intro N. rewrite run_once_unfold. cbv zeta.
   generalize (drop_cancelled_steps (length (heap s)) s).
-  generalize (drop_cancelled (length (heap s)) s). intros s1 D.
+  generalize (drop_cancelled_ready (length (heap s)) s).
+  generalize (drop_cancelled (length (heap s)) s). intros s1 RD D.
   destruct (select_timeout s1) as [dt|] eqn:T; [|discriminate].
   intro H. inversion H; subst; clear H.
-  apply select_timeout_nonneg in T.
-  eapply asteps_trans; [exact D|].
-  eapply AS_step; [apply (A_tick s1 (now s1 + dt)); lia|].
-  eapply asteps_trans; [apply pop_due_steps|].
-  eapply AS_step; [apply A_todo|apply run_todo_steps].
-  rewrite pop_due_trace. exists (ctr s1), (now s1 + dt). reflexivity.
+  apply select_timeout_nonneg in T. split.
+  - eapply asteps_trans; [exact D|].
+    eapply AS_step; [apply (A_tick s1 (now s1 + dt)); [lia|rewrite RD; exact N]|].
+    eapply asteps_trans; [apply pop_due_steps; exists (ctr s1), (now s1 + dt); reflexivity|].
+    eapply AS_step; [apply A_todo|apply run_todo_steps].
+    rewrite pop_due_trace. exists (ctr s1), (now s1 + dt). reflexivity.
+  - apply ntl_run_todo. reflexivity.
 Qed.
 
 (* when the selector would block forever: nothing ready, no timers *)
@@ -234,27 +316,35 @@ Proof.
   destruct (heap (drop_cancelled (length (heap s)) s)); [|discriminate]. auto.
 Qed.
 
+Lemma drop_cancelled_same fuel : forall s,
+  trace (drop_cancelled fuel s) = trace s /\ futs (drop_cancelled fuel s) = futs s /\
+  cell (drop_cancelled fuel s) = cell s /\ tcalled (drop_cancelled fuel s) = tcalled s.
+Proof.
+  induction fuel as [|n IHn]; intro s; simpl; auto.
+  destruct (heap s) as [|h0 hs]; auto. destruct (is_cancelled s h0); auto.
+  destruct (hpop (h0 :: hs)) as [[h hp]|]; auto.
+  destruct (IHn (set_heap hp s)) as (A & B & C & D). rewrite A, B, C, D. auto.
+Qed.
+
 Lemma run_loop_steps fuel : forall s s' e,
-  run_loop fuel s = (s', e) ->
+  ntl s -> run_loop fuel s = (s', e) ->
   match e with
   | OutOfFuel => True
   | Stopped => asteps ([], s) ([], s')
-  | Idle => exists s1, asteps ([], s) ([], s1) /\ ready s1 = [] /\ heap s1 = [] /\ trace s1 = trace s'
+  | Idle => exists s1, asteps ([], s) ([], s1) /\ ready s1 = [] /\ heap s1 = [] /\ trace s1 = trace s' /\
+                       futs s1 = futs s' /\ cell s1 = cell s' /\ tcalled s1 = tcalled s'
   end.
 Proof.
-  induction fuel as [|fu IH]; intros s s' e; simpl.
+  induction fuel as [|fu IH]; intros s s' e N; simpl.
   - intro H; inversion H; subst. exact I.
   - destruct (run_once s) as [s2|] eqn:R.
-    + apply run_once_steps in R.
+    + apply run_once_steps in R; auto. destruct R as [R N2].
       destruct (stopping s2).
       * intro H; inversion H; subst. exact R.
-      * intro H. apply IH in H. destruct e; auto.
+      * intro H. apply IH in H; auto. destruct e; auto.
         -- destruct H as (s1 & A & B). exists s1. split; auto. eapply asteps_trans; eauto.
         -- eapply asteps_trans; eauto.
     + intro H; inversion H; subst. apply run_once_idle in R.
-      destruct R as (s1 & A & B & C & D). exists s1. repeat split; auto.
-      subst s1. clear. generalize (length (heap s')). intro n. revert s'.
-      induction n as [|n IHn]; intro s; simpl; auto.
-      destruct (heap s) as [|h0 hs]; auto. destruct (is_cancelled s h0); auto.
-      destruct (hpop (h0 :: hs)) as [[h hp]|]; auto. rewrite IHn. reflexivity.
+      destruct R as (s1 & A & B & C & D). exists s1. subst s1.
+      destruct (drop_cancelled_same (length (heap s')) s') as (E1 & E2 & E3 & E4). repeat split; auto.
 Qed.
